@@ -323,6 +323,15 @@ func ueParamsOf(s *scn.Scenario, ord int) scn.UEParams {
 // Signature hashes the observable shape of a run: message sequence, verdicts, faults, read order.
 func Signature(r *Run) (sig string, nontrivial bool) {
 	h := sha256.New()
+	// the shape of the case: which swarm dimensions this run exercised
+	c := r.Scn.Config
+	fmt.Fprintf(h, "shape|mnc%d|op-only=%v|msin%d|gnb%d|name%d|lat=%s|args=%d\n", len(c.MNC), c.OPC == "", (len(c.IMSI)-3-len(c.MNC))%2, c.GnbBitLength, lenClass(len(c.GnbName)), r.Scn.Lat.Class, len(r.Scn.Args))
+	for i, u := range r.Scn.UEs {
+		if i >= c.NReg && i >= c.UENumber {
+			break
+		}
+		fmt.Fprintf(h, "ue|%x|%x|%x|%x|%x|%x|%x|id%d|%v\n", u.AuthOptIEs, u.SMCOpt, u.ICSOpt, u.RegAccOpt, u.CUCOpt, u.AccOpt, u.TransOpt, idClass(u.AmfUeID), u.IDPairInRel)
+	}
 	for _, e := range r.Events {
 		switch e.Ev {
 		case "ul", "dl", "read", "fault", "hang", "close", "dp", "dial":
@@ -338,6 +347,28 @@ func Signature(r *Run) (sig string, nontrivial bool) {
 	}
 	fmt.Fprintf(h, "exit=%d", r.Exit)
 	return hex.EncodeToString(h.Sum(nil))[:16], nontrivial
+}
+
+func lenClass(n int) int {
+	switch {
+	case n <= 1:
+		return 0
+	case n < 128:
+		return 1
+	case n < 150:
+		return 2
+	}
+	return 3
+}
+
+// idClass is the number of octets an AMF-UE-NGAP-ID needs on the wire.
+func idClass(v int64) int {
+	n := 1
+	for v > 0xff {
+		v >>= 8
+		n++
+	}
+	return n
 }
 
 func jsonStr(v interface{}) string {
